@@ -69,6 +69,8 @@ def scen(delays, outs, api, only_name, alphabet, kind='coro'):
         loop = aio.get_running_loop()
         if kind == 'task':
             aws = [loop.create_task(work(i)) for i in range(n)]
+        elif kind == 'gen':
+            aws = (work(i) for i in range(n))     # one-shot iterable, as the Iterable[Awaitable] signature allows
         else:
             aws = [work(i) for i in range(n)]
         kw = {} if only is None else {'only': only}
@@ -171,6 +173,8 @@ def cells(prop, tier):
         for api in (False, True):
             out.append(_cell(3, only, alpha, 'quick', 170, dmax=2, api=api))
     out.append(_cell(2, 'Base', ALPHABETS[2], 'quick', 150, kind='task'))
+    out.append(_cell(2, 'default', ALPHABETS[0], 'quick', 150, kind='gen'))
+    out.append(_cell(2, 'Base', ALPHABETS[2], 'quick', 150, kind='gen'))
     out.append(Cell(name='twin_reverse_order', sig='delays: List[int], outs: List[int]',
                     pre=['len(delays) == 2 and len(outs) == 2', 'all(0 <= d <= 2 for d in delays) and all(0 <= o <= 2 for o in outs)'],
                     body='H.twin(delays, outs)', expect='refute', timeout=90, family='gather'))
